@@ -1418,6 +1418,28 @@ class Executor:
         return conc if allc else simp(res)
     ext_bcmp = ext_memcmp
 
+    def ext_memset(s, st, fr, a, w):
+        d, v, n = a
+        if not isinstance(n, int): n = simp(n)
+        if not isinstance(n, int): raise Unsupported("symbolic memset length")
+        if not isinstance(v, int): v = simp(z3.Extract(7, 0, v))
+        else: v &= 0xff
+        if n:
+            r, off = s.resolve_ptr(st, d, n, 'memset')
+            s.on_write(st, r, off, n, 'memset')
+            if isinstance(off, int) and not r.symw:
+                mem = r.wmem()
+                for i in range(n): mem[off + i] = v
+            else:
+                for i in range(n): s.store_byte(r, simp(off + i) if not isinstance(off, int) else off + i, v)
+        return d
+
+    def ext_memcpy(s, st, fr, a, w):
+        s.memcpy(st, a[0], a[1], a[2], 'llvm.memcpy (libc call)'); return a[0]
+
+    def ext_memmove(s, st, fr, a, w):
+        s.memcpy(st, a[0], a[1], a[2], 'llvm.memmove (libc call)'); return a[0]
+
     def ext___assert_fail(s, st, fr, a, w): s.violation(st, 'ASSERT', 'library assert() failed')
     def ext__ZSt9terminatev(s, st, fr, a, w): s.violation(st, 'TERMINATE', 'std::terminate called')
     def ext___clang_call_terminate(s, st, fr, a, w): s.violation(st, 'TERMINATE', 'std::terminate: exception left a noexcept function')
